@@ -14,16 +14,16 @@ import ZenoModel.Model.Expr
 namespace Zeno
 
 structure Seq where
-  hi : Time
+  hi : Int
   cells : List (List Cell)
   deriving Repr, DecidableEq, Inhabited
 
 abbrev Sq := Option Seq
 
-def Sq.until (s : Sq) : Time := match s with | none => 0 | some s => s.hi
+def Sq.until (s : Sq) : Int := match s with | none => 0 | some s => s.hi
 def Sq.numPeriods (s : Sq) : Nat := match s with | none => 0 | some s => s.cells.length
 /-- `Sequence.AsOf` -/
-def Sq.asOf (s : Sq) (res : Dur) : Time :=
+def Sq.asOf (s : Sq) (res : Int) : Int :=
   match s with | none => 0 | some s => s.hi - (s.cells.length : Int) * res
 
 /-- pad with empty states / cut to exactly `n` periods (a zeroed `make` of `n`
@@ -36,7 +36,7 @@ def modifyAt (cs : List (List Cell)) (i : Nat) (f : List Cell → List Cell) : L
   cs.modify i f
 
 /-- `Sequence.Truncate(width, resolution, asOf, until)` (result value). -/
-def Sq.truncate (s : Sq) (res : Dur) (asOf hi : Time) : Sq :=
+def Sq.truncate (s : Sq) (res : Int) (asOf hi : Int) : Sq :=
   match s with
   | none => none
   | some s =>
@@ -63,8 +63,8 @@ def Sq.truncate (s : Sq) (res : Dur) (asOf hi : Time) : Sq :=
       else some r
 
 /-- `Sequence.UpdateValue(ts, params, metadata, e, resolution, truncateBefore)`. -/
-def Sq.updateValue (x : Ext) (e : Ex) (res : Dur) (s : Sq) (ts : Time) (p : Pt)
-    (truncateBefore : Time) : Sq :=
+def Sq.updateValue (x : Ext) (e : Ex) (res : Int) (s : Sq) (ts : Int) (p : Pt)
+    (truncateBefore : Int) : Sq :=
   let ts := roundUp ts res
   let until0 := s.until
   let untl := if until0 = 0 then ts else until0
@@ -102,7 +102,7 @@ def mergeCells (e : Ex) : Nat → List (List Cell) → List (List Cell) → List
   | _ + 1, [], [] => []
 
 /-- `Sequence.Merge(other, e, resolution, truncateBefore)`. -/
-def Sq.merge (e : Ex) (res : Dur) (s other : Sq) (truncateBefore : Time) : Sq :=
+def Sq.merge (e : Ex) (res : Int) (s other : Sq) (truncateBefore : Int) : Sq :=
   match s, other with
   | none, o => o
   | some a, none => some a
@@ -143,7 +143,7 @@ def Sq.cellAt (s : Sq) (e : Ex) (period : Int) : List Cell :=
 
 /-- semantic view: the state stored for the period ending at `t` (empty when
     `t` is outside the sequence or off its grid) -/
-def Sq.at (s : Sq) (e : Ex) (res : Dur) (t : Time) : List Cell :=
+def Sq.at (s : Sq) (e : Ex) (res : Int) (t : Int) : List Cell :=
   match s with
   | none => e.empty
   | some q =>
@@ -151,7 +151,7 @@ def Sq.at (s : Sq) (e : Ex) (res : Dur) (t : Time) : List Cell :=
     else e.empty
 
 /-- `Sequence.ValueAtTime(t, e, resolution)` -/
-def Sq.valueAtTime (x : Ext) (s : Sq) (e : Ex) (res : Dur) (t : Time) : Option Rat :=
+def Sq.valueAtTime (x : Ext) (s : Sq) (e : Ex) (res : Int) (t : Int) : Option Rat :=
   if e.isConstant then e.val x []
   else match s with
   | none => none
